@@ -53,15 +53,15 @@ fn trace(a: &[String]) {
         "rep" => {
             g_rep(&mut w, &mut rng, 10 * mul, 160);
             let mut r2 = Rng::new(seed, "seek", shard);
-            g_seek(&mut w, &mut r2, 8 * mul, 14);
+            g_seek(&mut w, &mut r2, if thorough { 60 } else { 8 }, 14);
             let mut r3 = Rng::new(seed, "built", shard);
-            g_built(&mut w, &mut r3, 40 * mul);
+            g_built(&mut w, &mut r3, if thorough { 300 } else { 40 });
             let mut r4 = Rng::new(seed, "trap", shard);
-            g_trap(&mut w, &mut r4, 20 * mul);
+            g_trap(&mut w, &mut r4, if thorough { 150 } else { 20 });
             let mut r5 = Rng::new(seed, "matrix", shard);
-            g_matrix(&mut w, &mut r5, 2 * mul);
+            g_matrix(&mut w, &mut r5, if thorough { 12 } else { 2 });
             let mut r6 = Rng::new(seed, "illegal", shard);
-            g_illegal(&mut w, &mut r6, 6 * mul);
+            g_illegal(&mut w, &mut r6, if thorough { 40 } else { 6 });
         }
         "local" => g_local(&mut w, &mut rng, seed, shard, nshards, thorough),
         "tables" => g_tables(&mut w, &mut rng, shard, nshards, thorough),
